@@ -528,6 +528,14 @@ def check_c07(run: Run) -> None:
             for o in x.objects:
                 if x.type == 'FILE-HEADER':
                     run.obs['header-origin-field-checked'] += 1
+                    chosen = [op_['value'] for op_ in run.spec['ops'] if op_.get('op') == 'set_header' and op_.get('lf', 0) == lfi
+                              and op_.get('field') == 'origin_reference']
+                    if chosen:
+                        # "the defining origin unless the user chose another": whenever the choice was made
+                        run.obs['header-origin-chosen-by-user'] += 1
+                        if o.name[0] != chosen[-1]:
+                            run.v('C07', 'origin-field-wrong', 'origin-field-wrong:file-header',
+                                  f'lf {lfi}: the user set the file header\'s origin reference to {chosen[-1]}, it is written with {o.name[0]}')
                 if o.name[0] not in origin_refs:
                     run.v('C07', 'origin-field-unknown', 'origin-field-unknown' + (':file-header' if x.type == 'FILE-HEADER' else ''),
                           f'lf {lfi}: {x.type} {o.name} has origin {o.name[0]}, ORIGIN objects have {origin_refs}')
